@@ -155,7 +155,7 @@ def run(ctx):
                'interpolate_variable clamps to 0.999*a_max by design: anything between the interpolants at 0.999*a_max and a_max is accepted',
                'rtol 1e-11 (1e-9 for the composite SED)')
     ctx.require_events('ConvolvedFluxes.interpolate:post', 'SED.interpolate:post', 'SED.interpolate_variable:post', 'variable:node-checked',
-                       'refused:convolved', 'refused:sed', 'refused:variable', 'convolved:same-table-again', 'convolved:table-changed-between-calls', 'convolved:table-without-errors')
+                       'refused:convolved', 'refused:sed', 'refused:variable', 'convolved:same-table-again', 'convolved:table-changed-between-calls', 'convolved:table-without-errors', 'sed:apertures-replaced-between-calls')
     ctx.require_regimes('single-aperture', 'convolved:no-apertures', 'unit:pc', 'unit:cm', 'sed-apertures:cm', 'above-table', 'on-knot')
     n_it = 250 if ctx.quick else 10000
     for it in range(n_it):
@@ -262,6 +262,20 @@ def run(ctx):
             if it % 3 == 0:
                 s.interpolate(requests(rng, tab_s, 2) * (1 + 1e-9))
                 s.interpolate(req.copy())
+            if it % 3 == 1 and n_ap >= 2:
+                # the aperture table of a live SED replaced (same number of radii, other values / another unit), fluxes untouched:
+                # every call must answer from the table as it is then (the contract snapshots it before each call)
+                tab2 = tab * float(rng.uniform(1.2, 3.0))
+                s.apertures = (tab2 * u.au).to(u.Unit(str(rng.choice(['au', 'cm', 'pc']))))
+                tab2_au = np.asarray(s.apertures.to(u.au).value, float)
+                r2 = requests(rng, tab2_au, 3)
+                r2 = np.array([a * (1 + 1e-9) if a == tab2_au[0] else a for a in r2])
+                s.interpolate(r2.copy())
+                fa2 = requests(rng, tab2_au, 2)
+                fa2 = np.array([a * (1 + 1e-9) if a == tab2_au[0] else a for a in fa2])
+                s.interpolate_variable(wav[:2].copy(), fa2.copy())
+                ctx.event('sed:apertures-replaced-between-calls')
+                s.apertures = sq
         except Exception as exc:
             ctx.violation('sed:raised:%s' % type(exc).__name__, 'SED.interpolate raised for radii inside/above the table: %r' % (exc,), wit)
         ctx.case(('sed', it, ctx.shard), nontrivial=n_ap >= 2)
